@@ -70,7 +70,7 @@ Lemma browser_cache_records_qfree now j : forall rs nms nulls w, qfree (snd (bro
 Proof.
   induction rs as [|r rs IH]; intros nms nulls w; cbn [browser_cache_records]; [constructor|].
   destruct (nth_error (w_browsers w) j) as [b|]; [|constructor].
-  destruct (if (r_type r =? T_PTR)%N then _ else _) as [[keep upd] tgt].
+  destruct (classify _ r) as [[keep upd] tgt].
   assert (H1 : qfree (snd (match tgt with
             | Some t => (mkWorld (w_caches w) (replace_nth j (mkBrowser (b_type b) (b_cache b) (b_services b) (b_hostnames b)
                                    (set_insert (bs_data t) (b_ptr_targets b))) (w_browsers w)) (w_jitter w),
@@ -162,7 +162,7 @@ Lemma browser_cache_records_len now j : forall rs nms nulls w, nb (fst (fst (fst
 Proof.
   induction rs as [|r rs IH]; intros nms nulls w; cbn [browser_cache_records]; [reflexivity|].
   destruct (nth_error (w_browsers w) j) as [b|] eqn:Nb; [|reflexivity].
-  destruct (if (r_type r =? T_PTR)%N then _ else _) as [[keep upd] tgt].
+  destruct (classify _ r) as [[keep upd] tgt].
   assert (H1 : nb (fst (match tgt with
             | Some t => (mkWorld (w_caches w) (replace_nth j (mkBrowser (b_type b) (b_cache b) (b_services b) (b_hostnames b)
                                    (set_insert (bs_data t) (b_ptr_targets b))) (w_browsers w)) (w_jitter w),
